@@ -11,7 +11,9 @@ import (
 	"github.com/skycoin/skycoin/src/cipher/encoder"
 	"github.com/skycoin/skycoin/src/coin"
 	"github.com/skycoin/skycoin/src/visor"
+	"github.com/skycoin/skycoin/src/visor/blockdb"
 	"github.com/skycoin/skycoin/src/visor/dbutil"
+	"github.com/skycoin/skycoin/src/visor/historydb"
 
 	. "verif/harness/hlib"
 )
@@ -51,6 +53,8 @@ func decodeTxn(hx string) (coin.Transaction, error) {
 	return coin.DeserializeTransaction(b)
 }
 
+type deadNode struct{ name string }
+
 func getNode(name string) *node {
 	if world == nil {
 		panic("harness: no world (missing reset)")
@@ -58,6 +62,10 @@ func getNode(name string) *node {
 	n := world.nodes[name]
 	if n == nil {
 		panic("harness: unknown node " + name)
+	}
+	if n.db == nil || n.v == nil {
+		// the node failed to (re)start earlier: every later op on it answers "dead"
+		panic(deadNode{name})
 	}
 	return n
 }
@@ -70,7 +78,20 @@ func headHeader(n *node) *coin.BlockHeader {
 	return &hb.Head
 }
 
-func ledgerExec(op string) string {
+func ledgerExec(op string) (out string) {
+	defer func() {
+		if r := recover(); r != nil {
+			if d, ok := r.(deadNode); ok {
+				out = "Rdead-" + d.name
+				return
+			}
+			panic(r)
+		}
+	}()
+	return ledgerExec0(op)
+}
+
+func ledgerExec0(op string) string {
 	out := ledgerExec1(op)
 	f := Fields(op)
 	if c8On && (f[0] == "c8begin" || (len(f) > 1 && f[1] == "F")) {
@@ -191,10 +212,50 @@ func ledgerExec1(op string) string {
 	case "checkdb":
 		n := getNode(f[1])
 		return "R" + errCode(checkDBCopy(n))
+	case "rebuild":
+		// simulate a database whose derived data must be rebuilt at start-up, then restart:
+		//   history   - the history needs a reset (metadata lost): Erase + re-parse of the whole chain
+		//   histtxns  - one history bucket is empty: same path through NeedsReset
+		//   addrindex - the address-index height is stale: unspent address index rebuilt from the pool
+		n := getNode(f[1])
+		// the artificially damaged database is not a state the node produces: no crash snapshots of it
+		// (C08); one snapshot is taken once the rebuild has completed
+		wasOn := c8On
+		c8On = false
+		defer func() {
+			c8On = wasOn
+			if wasOn && f[1] == "F" {
+				c8Snapshot()
+			}
+		}()
+		if err := n.db.Update("verif rebuild", func(tx *dbutil.Tx) error {
+			switch f[2] {
+			case "history":
+				return dbutil.Reset(tx, historydb.HistoryMetaBkt)
+			case "histtxns":
+				return dbutil.Reset(tx, historydb.TransactionsBkt)
+			case "addrindex":
+				if err := dbutil.Reset(tx, blockdb.UnspentPoolAddrIndexBkt); err != nil {
+					return err
+				}
+				return dbutil.Delete(tx, blockdb.UnspentMetaBkt, []byte("addr_index_height"))
+			}
+			return nil
+		}); err != nil {
+			return "R" + errCode(err)
+		}
+		n.db.Close()
+		n.db, n.v = nil, nil
+		nn, err := openNode(world, n.name, n.cfg)
+		if err != nil {
+			return "R" + errCode(err)
+		}
+		world.nodes[n.name] = nn
+		return "Rok " + digest(nn)
 	case "restart":
 		n := getNode(f[1])
 		n.db.Close()
-		n.db = nil
+		n.db, n.v = nil, nil
 		nn, err := openNode(world, n.name, n.cfg)
 		if err != nil {
 			return "R" + errCode(err)
